@@ -89,6 +89,12 @@ def step (s : St) (toks : List String) : St × String :=
         (r.1, s!"first:{r.2.1} last:{r.2.2}")
       else (s, "bad-op")
     | _, _ => (s, "bad-op")
+  | ["subfull", cap] =>
+    -- a subscribe through the real control dispatcher on a connection whose push queue is full, then a
+    -- publish that must complete: monitor only on a private hub, no state change
+    match cap.toNat? with
+    | some c => if c = 0 || c > 256 then (s, "bad-op") else (s, "ok")
+    | none => (s, "bad-op")
   | ["par", nsubs, rounds] =>
     -- real-parallelism probe on a private hub: monitor only, no state change
     match nsubs.toNat?, rounds.toNat? with
